@@ -44,6 +44,7 @@ type JSONGenConfig struct {
 	NonASCII  bool
 	BigNums   bool
 	Escapes   bool
+	Wide      bool // some containers get 17-60 children (size thresholds)
 }
 
 func DrawJSONConfig(t *simkit.Tape) JSONGenConfig {
@@ -58,6 +59,7 @@ func DrawJSONConfig(t *simkit.Tape) JSONGenConfig {
 	c.NonASCII = t.Bool(1, 2)
 	c.BigNums = t.Bool(1, 2)
 	c.Escapes = t.Bool(2, 3)
+	c.Wide = t.Bool(1, 6)
 	return c
 }
 
@@ -119,14 +121,24 @@ func (g *jsonGen) value(depth int) *JV {
 	case 0:
 		o := &JV{Kind: JObj}
 		n := g.t.Geo(5) + g.t.Pick(3, 1, 1, 1)
-		for i := 0; i < n && g.nodes < g.cfg.MaxNodes; i++ {
+		budget := g.cfg.MaxNodes
+		if g.cfg.Wide && g.t.Bool(1, 4) {
+			n = 17 + g.t.Draw(44)
+			budget = g.nodes + 2*n
+		}
+		for i := 0; i < n && g.nodes < budget; i++ {
 			o.Members = append(o.Members, JMember{g.key(), g.value(depth + 1)})
 		}
 		return o
 	case 1:
 		a := &JV{Kind: JArr}
 		n := g.t.Geo(5) + g.t.Pick(3, 1, 1, 1)
-		for i := 0; i < n && g.nodes < g.cfg.MaxNodes; i++ {
+		budget := g.cfg.MaxNodes
+		if g.cfg.Wide && g.t.Bool(1, 4) {
+			n = 17 + g.t.Draw(44)
+			budget = g.nodes + 2*n
+		}
+		for i := 0; i < n && g.nodes < budget; i++ {
 			a.Items = append(a.Items, g.value(depth+1))
 		}
 		return a
